@@ -2,6 +2,7 @@ import A816.Props.C06
 import A816.Props.C10
 import A816.Model.Program
 import A816.Props.C15
+import A816.Proofs.ScanLocal
 /-!
 # C16 — Output does not depend on how the source text is laid out
 
@@ -17,6 +18,15 @@ metamorphic stream S4-relayout:
   if written in place (no scope is opened).
 * `spaces_ignored`: `ignore_run(" ")` (used after `#`, brackets, around operators and commas) only moves
   `start`/`pos` over blanks: it emits no token and leaves the line bookkeeping alone.
+* **`scan_suffix_local`** (the scanner is local, for every configuration, scanner state and pair of texts): when the
+  scans of two texts each pass through a between-token point (head of an iteration of `Scanner.scan`, `start = pos`)
+  and the texts *after* those points are equal, the tokens emitted after those points have the same types and texts
+  and the scans end the same way (same error message or none).  What precedes the point — other statements, comments,
+  how they were laid out, an include boundary — cannot influence what follows it.
+* **`blanks_between_tokens`**: the same conclusion when the remaining texts are equal *after dropping their leading
+  blanks, tabs and newlines*: blank lines, indentation and trailing spaces at a between-token point change nothing.
+  A comment is the same statement applied to the point after the comment (`scan_suffix_local` does not compare the
+  tokens before the points), and the parser drops the COMMENT token (`comment_skipped`).
 -/
 namespace A816.C16
 open A816 C10
@@ -136,5 +146,76 @@ theorem spaces_ignored (s s' : Scan) (h : s.ignoreRun [' '] = .ok s') :
   simp only [Except.ok.injEq] at h
   subst h
   exact ⟨h2, h3, rfl⟩
+
+/-! ## the scanner is local -/
+open ScanS in
+/-- **the tokens after a between-token point depend only on the text after it** -/
+theorem scan_suffix_local (cfg : ScanCfg) (st : ScanState) (f1 f2 : Nat) (i1 i2 : List Char) (s1 s2 : Scan)
+    (h1 : Reach cfg st (initState f1 i1) s1) (h2 : Reach cfg st (initState f2 i2) s2)
+    (b1 : s1.start = s1.pos) (b2 : s2.start = s2.pos) (l1 : s1.pos ≤ i1.length) (l2 : s2.pos ≤ i2.length)
+    (hrest : i1.drop s1.pos = i2.drop s2.pos) :
+    ResRel s1.toks.size s2.toks.size (scan cfg st f1 i1) (scan cfg st f2 i2) := by
+  have e1 : s1.input = i1.toArray := h1.le.input
+  have e2 : s2.input = i2.toArray := h2.le.input
+  have hsim : Sim s1.pos s2.pos s1.toks.size s2.toks.size s1 s2 :=
+    Sim.ofBoundary s1 s2 b1 b2 (by rw [e1]; simpa using l1) (by rw [e2]; simpa using l2) (by rw [e1, e2]; simpa using hrest)
+  rw [scan_of_reach cfg st f1 i1 s1 h1, scan_of_reach cfg st f2 i2 s2 h2, hsim.remaining]
+  exact finish_rel (sim_scanLoop cfg st _ _ _ hsim)
+
+/-- a blank, a tab or a newline -/
+def isBlank (c : Char) : Bool := [' ', '\t', '\n'].contains c
+
+open ScanS in
+/-- **blank lines, indentation and trailing spaces between tokens change nothing**: two between-token points of the
+    initial scanner state whose remaining texts are equal once their leading blanks, tabs and newlines are dropped are
+    followed by the same tokens and the same outcome -/
+theorem blanks_between_tokens (cfg : ScanCfg) (f1 f2 : Nat) (i1 i2 : List Char) (s1 s2 : Scan)
+    (h1 : Reach cfg .initial (initState f1 i1) s1) (h2 : Reach cfg .initial (initState f2 i2) s2)
+    (b1 : s1.start = s1.pos) (b2 : s2.start = s2.pos) (l1 : s1.pos ≤ i1.length) (l2 : s2.pos ≤ i2.length)
+    (hrest : (i1.drop s1.pos).dropWhile isBlank = (i2.drop s2.pos).dropWhile isBlank) :
+    ResRel s1.toks.size s2.toks.size (scan cfg .initial f1 i1) (scan cfg .initial f2 i2) := by
+  have e1 : s1.input = i1.toArray := h1.le.input
+  have e2 : s2.input = i2.toArray := h2.le.input
+  have tot : ∀ (s : Scan), ∃ t, s.ignoreRun [' ', '\t', '\n'] = .ok t := by
+    intro s
+    obtain ⟨u, hu, _, _⟩ := ScanB.acceptRun_ok s [' ', '\t', '\n'] false (by decide)
+    exact ⟨u.ignore, by unfold Scan.ignoreRun; rw [hu]⟩
+  obtain ⟨t1, r1⟩ := tot s1
+  obtain ⟨t2, r2⟩ := tot s2
+  obtain ⟨d1, d2, d3⟩ := ignoreRun_dropWhile s1 t1 _ (by decide) r1
+  obtain ⟨g1, g2, g3⟩ := ignoreRun_dropWhile s2 t2 _ (by decide) r2
+  have ht1 := (ignoreRun_idem s1 t1 _ r1).2
+  have ht2 := (ignoreRun_idem s2 t2 _ r2).2
+  have hk1 : t1.toks = s1.toks := ScanT.ignoreRun_toks s1 t1 _ r1
+  have hk2 : t2.toks = s2.toks := ScanT.ignoreRun_toks s2 t2 _ r2
+  have hrest' : t1.input.toList.drop t1.pos = t2.input.toList.drop t2.pos := by
+    rw [d2, g2, e1, e2]
+    exact hrest
+  have hsim := Sim.ofBoundary t1 t2 ht1 ht2 (d3 (by rw [e1]; simpa using l1)) (g3 (by rw [e2]; simpa using l2)) hrest'
+  rw [hk1, hk2] at hsim
+  rw [scan_of_reach cfg .initial f1 i1 s1 h1, scan_of_reach cfg .initial f2 i2 s2 h2,
+      scanLoop_skip_blanks cfg s1 t1 b1 r1 _ (t1.input.size - t1.pos + 1) (by omega) (by omega),
+      scanLoop_skip_blanks cfg s2 t2 b2 r2 _ (t2.input.size - t2.pos + 1) (by omega) (by omega), hsim.remaining]
+  exact finish_rel (sim_scanLoop cfg .initial _ _ _ hsim)
+
+
+/-! non-vacuity: the hypotheses of `blanks_between_tokens` hold at concrete points (checked by evaluation), and the
+    conclusion is observed on the same texts (these two `example`s are tests, not the theorem) -/
+private def cfgX : ScanCfg := ⟨["nop", "lda"], ["nop"], ["db"]⟩
+private def bnd (k : Nat) (i : List Char) : Option Scan := ScanS.iter cfgX .initial k (ScanS.initState 0 i)
+private def okB (o1 o2 : Option Scan) (i1 i2 : List Char) : Bool :=
+  match o1, o2 with
+  | some s1, some s2 =>
+    s1.start == s1.pos && s2.start == s2.pos && decide (s1.pos ≤ i1.length) && decide (s2.pos ≤ i2.length) &&
+      ((i1.drop s1.pos).dropWhile isBlank == (i2.drop s2.pos).dropWhile isBlank)
+  | _, _ => false
+/-- blank lines and indentation: after the first `nop` of "nop⏎⏎   nop⏎" and of "nop⏎nop⏎" -/
+example : okB (bnd 1 "nop\n\n   nop\n".toList) (bnd 1 "nop\nnop\n".toList) "nop\n\n   nop\n".toList "nop\nnop\n".toList = true := by
+  decide +kernel
+/-- an end-of-line comment: after the comment of "nop ; c⏎lda #1⏎" (two iterations) and after `nop` of "nop⏎lda #1⏎" -/
+example : okB (bnd 2 "nop ; c\nlda #1\n".toList) (bnd 1 "nop\nlda #1\n".toList) "nop ; c\nlda #1\n".toList "nop\nlda #1\n".toList = true := by
+  decide +kernel
+example : ((scan cfgX .initial 0 "nop ; c\nlda #1\n".toList).toks.toList.drop 2).map ScanS.key
+    = ((scan cfgX .initial 0 "nop\nlda #1\n".toList).toks.toList.drop 1).map ScanS.key := by decide +kernel
 
 end A816.C16
